@@ -35,6 +35,12 @@ class Check(PropCheck):
                     if nd.length is not None and rng.random() < 0.3:
                         nd.length = -nd.length
                 ops = [gen.parse_op(gen.to_newick(t))]
+            if rng.random() < 0.12:
+                # infinite / NaN lengths: present but not finite (a sum may be NaN: still PRESENT, not absent)
+                for nd in t.nodes():
+                    if nd.length is not None and rng.random() < 0.35:
+                        nd.length = rng.choice([float('inf'), float('-inf'), float('nan')])
+                ops = [gen.parse_op(gen.to_newick(t))]
             ne = rng.randint(0, 4)
             ops += edit_prefix(rng, ne)
             if rng.random() < 0.15:
